@@ -75,6 +75,54 @@ def native_check(cfg, env=None, seed=0, scale=1.0):
     return fails
 
 
+def large_regime(seed=0, nv=2, nh=2, na=3):
+    """Magnitudes up to ~30 (the property's range), several auxiliary units with large couplings and biases, negative
+    visible biases: the entries of rho are finite although sums over the auxiliary layer pass e^700 on the way.  The
+    reference is the partial trace of the purified state in extended precision (numpy longdouble, log domain per term)."""
+    rng = np.random.default_rng(seed)
+    st = C.make_state("mixed", nv, nh, na)
+    C.randomize(st, rng, 2.0)
+    st.rbm_am.weights_U.data = torch.tensor(rng.uniform(18, 28, size=(na, nv)), dtype=torch.double)
+    st.rbm_am.aux_bias.data = torch.tensor(rng.uniform(18, 28, size=(na,)), dtype=torch.double)
+    st.rbm_am.visible_bias.data = torch.tensor(rng.uniform(-30, -20, size=(nv,)), dtype=torch.double)
+    st.rbm_ph.aux_bias.data.zero_()
+    am, ph = C.np_params(st.rbm_am), C.np_params(st.rbm_ph)
+    L = np.longdouble
+    vs, auxs, hs = C.bits(nv), C.bits(na), C.bits(nh)
+
+    def logp(par, v, a):
+        W, U = par["weights_W"].astype(L), par["weights_U"].astype(L)
+        b, c, d = par["visible_bias"].astype(L), par["hidden_bias"].astype(L), par["aux_bias"].astype(L)
+        v, a = np.asarray(v, dtype=L), np.asarray(a, dtype=L)
+        th = c + W @ v
+        return b @ v + d @ a + a @ U @ v + np.sum(np.log1p(np.exp(th)))
+    D = len(vs)
+    want = np.zeros((D, D), dtype=np.clongdouble)
+    for i, v in enumerate(vs):
+        for j, w in enumerate(vs):
+            for a in auxs:
+                lam = (logp(am, v, a) + logp(am, w, a)) / 2
+                mu = (logp(ph, v, a) - logp(ph, w, a)) / 2
+                want[i, j] += np.exp(lam) * (np.cos(mu) + 1j * np.sin(mu))
+    space = st.generate_hilbert_space(nv)
+    fails = []
+    with np.errstate(all="ignore"):
+        r = st.rho(space, space)
+        got = r[0].numpy().astype(L) + 1j * r[1].numpy().astype(L)
+        fin = np.isfinite(np.abs(want).astype(float))
+        if not np.all(np.isfinite(got.real[fin].astype(float))) or not np.all(np.isfinite(got.imag[fin].astype(float))):
+            fails.append(("large parameters: rho has non-finite entries where the partial trace is finite", float(np.max(np.abs(want[fin]).astype(float)))))
+        else:
+            rel = np.abs(got[fin] - want[fin]) / np.maximum(np.abs(want[fin]), L(1e-300))
+            if float(np.max(rel)) > 1e-8:
+                fails.append(("large parameters: rho != partial trace of the purified state (extended-precision reference)", float(np.max(rel))))
+        prob = st.probability(space).numpy()
+        dg = np.real(np.diag(want)).astype(float)
+        if not np.allclose(prob[np.isfinite(dg)], dg[np.isfinite(dg)], rtol=1e-8, atol=0):
+            fails.append(("large parameters: probability != diagonal of the partial trace", None))
+    return fails
+
+
 def bounded(tier, seed):
     n, bad = 0, []
     archs = [(1, 1, 1), (2, 3, 2), (3, 2, 3)] if tier == "quick" else [(a, b, c) for a in range(1, 5) for b in range(1, 5) for c in range(1, 5)]
@@ -84,6 +132,11 @@ def bounded(tier, seed):
             n += 1
             if f:
                 bad.append(((nv, nh, na, s, scale), f[:2]))
+    for s in ((seed, seed + 1) if tier == "quick" else range(seed, seed + 6)):
+        f = large_regime(s, 2, 2, 3 if s % 2 == 0 else 4)
+        n += 1
+        if f:
+            bad.append((("large parameters", s), f[:2]))
     for via in ("deepcopy", "pickle"):
         f = native_check({"nv": 2, "nh": 2, "na": 2, "via": via}, None, seed + 7, 1.0)
         n += 1
